@@ -245,7 +245,7 @@ def imager_transform_contract(form, n_jobs=None, skew=True):
         else:
             out.append(("collection_gives_list_of_images_in_order", isinstance(res, list) and len(res) == len(g["ds"]), "P"))
         if not all(isinstance(r, ImgResult) for r in (items if isinstance(items, list) else [])):
-            return out + [("every_image_comes_from__transform", False, "P")]
+            return out + [("every_image_comes_from__transform", False, "S")]
         want_keys = {"pers_dgm", "skew", "resolution", "weight", "weight_params", "kernel", "kernel_params", "_bpnts", "_ppnts"}
         for k, (r, D) in enumerate(zip(items, g["ds"])):
             b = r.bound
